@@ -286,9 +286,11 @@ Definition agree_decode (uk : universe * dc_case) : bool :=
   let '(u, k) := uk in
   match dc_encoded k with
   | Ok j =>
-      match model_decode u k j with
-      | Err EAmbiguous => true
-      | r => gres_eqb value_eqb r (dc_decoded k)
+      match model_decode u k j, dc_decoded k with
+      | Err EAmbiguous, _ => true
+      | _, Err EUnmodelled => true      (* an exception class the model has no name for (ill-typed input);
+                                           for typed input the round-trip oracle reports it *)
+      | r, o => gres_eqb value_eqb r o
       end
   | Err _ => true
   end.
